@@ -95,6 +95,7 @@ type fnState struct {
 	fn      *ssa.Function
 	org     map[ssa.Value]PathSet
 	content map[Path]PathSet // region -> origins of references stored there
+	copies  map[Path]PathSet // region -> regions whose value (struct/array with references) was copied into it
 	sum     *Summary
 	changed bool
 	tup     map[tupleKey]PathSet
@@ -224,7 +225,7 @@ func (st *fnState) storeRef(tgt Path, src PathSet) {
 }
 
 func (a *Analyzer) analyze(fn *ssa.Function) *Summary {
-	st := &fnState{a: a, fn: fn, org: map[ssa.Value]PathSet{}, content: map[Path]PathSet{}}
+	st := &fnState{a: a, fn: fn, org: map[ssa.Value]PathSet{}, content: map[Path]PathSet{}, copies: map[Path]PathSet{}}
 	st.sum = newSummary(fn, fn.Signature.Results().Len())
 	fresh := 0
 	freshOf := map[ssa.Instruction]Path{}
@@ -302,6 +303,25 @@ func (a *Analyzer) analyze(fn *ssa.Function) *Summary {
 	return st.sum
 }
 
+// refsAt: origins of the reference held in region r: what was stored there,
+// the unknown initial pointee, and the same for every region r was copied from.
+func (st *fnState) refsAt(r Path) PathSet {
+	out := PathSet{r.Ext("*"): true}
+	out.AddAll(st.content[r])
+	for t, srcs := range st.copies {
+		if !Under(r, t) {
+			continue
+		}
+		rel := Path("X" + strings.TrimSuffix(string(r), "…")[len(strings.TrimSuffix(string(t), "…")):])
+		for s := range srcs {
+			sr := rel.Rebase(s)
+			out[sr.Ext("*")] = true
+			out.AddAll(st.content[sr])
+		}
+	}
+	return out
+}
+
 func (st *fnState) step(in ssa.Instruction, fp func(ssa.Instruction) Path) {
 	switch x := in.(type) {
 	case *ssa.Alloc:
@@ -325,7 +345,14 @@ func (st *fnState) step(in ssa.Instruction, fp func(ssa.Instruction) Path) {
 	case *ssa.Field:
 		name := x.X.Type().Underlying().(*types.Struct).Field(x.Field).Name()
 		for p := range st.get(x.X) {
-			st.add1(x, p.Ext("."+name))
+			r := p.Ext("." + name)
+			st.read(r)
+			if isRefType(x.Type()) {
+				// the VALUE of a reference field: what the region holds
+				st.add(x, st.refsAt(r))
+			} else {
+				st.add1(x, r)
+			}
 		}
 	case *ssa.IndexAddr:
 		for p := range st.get(x.X) {
@@ -333,8 +360,13 @@ func (st *fnState) step(in ssa.Instruction, fp func(ssa.Instruction) Path) {
 		}
 	case *ssa.Index:
 		for p := range st.get(x.X) {
-			st.add1(x, p.Ext("[]"))
-			st.read(p.Ext("[]"))
+			r := p.Ext("[]")
+			st.read(r)
+			if isRefType(x.Type()) {
+				st.add(x, st.refsAt(r))
+			} else {
+				st.add1(x, r)
+			}
 		}
 	case *ssa.Lookup:
 		for p := range st.get(x.X) {
@@ -380,8 +412,7 @@ func (st *fnState) step(in ssa.Instruction, fp func(ssa.Instruction) Path) {
 			for p := range st.get(x.X) {
 				st.read(p)
 				if isRefType(x.Type()) {
-					st.add1(x, p.Ext("*"))
-					st.add(x, st.content[p])
+					st.add(x, st.refsAt(p))
 				} else {
 					// value copy of the region (struct / array / scalar)
 					st.add1(x, p)
@@ -403,6 +434,17 @@ func (st *fnState) step(in ssa.Instruction, fp func(ssa.Instruction) Path) {
 				// the target's reference fields now alias the source's
 				for s := range st.get(x.Val) {
 					st.storeRef(p, PathSet{s.Ext("…"): true})
+					if s != p {
+						c := st.copies[p]
+						if c == nil {
+							c = PathSet{}
+							st.copies[p] = c
+						}
+						if !c[s] {
+							c[s] = true
+							st.changed = true
+						}
+					}
 				}
 			}
 		}
